@@ -44,6 +44,7 @@ type Program struct {
 	HolderSubs map[string][]*types.Var   // location of the holder field ("ctx.blocks") -> its sub-fields
 	HolderOf   map[*types.Var]*types.Var // sub-field -> holder field
 	HolderType map[string]string         // holder type name -> location of the holder field
+	tentativeHolders, tentativeType []string
 	TypeAlias  map[string]string         // private type name -> role name
 
 	// callers: callee -> list of call sites (filled by callgraph.go)
@@ -169,6 +170,9 @@ func loadProgram(dir string, tags string, env []string) (*Program, error) {
 	prog.nFuncs = len(prog.Funcs)
 	prog.flattenHolders()
 	prog.deriveAliases()
+	if prog.settleHolders() {
+		prog.deriveAliases()
+	}
 	return prog, nil
 }
 
